@@ -356,6 +356,21 @@ static std::string handle(const std::vector<std::string>& f)
             auto y = mk(ty, ly);
             return only_hash(x, y, lx, ly);
         }
+        if (name == "W") // tuple<int, u32string>: a wide string member (token: its code point, "e" = empty)
+        {
+            auto mk = [](const std::vector<std::string>& t, Leafs& l) {
+                std::u32string w;
+                if (t.at(1) != "e")
+                    w.push_back(static_cast<char32_t>(std::stoul(t.at(1))));
+                auto v = std::make_tuple(std::stoi(t.at(0)), w);
+                l.add(std::get<0>(v));
+                l.add(std::get<1>(v));
+                return v;
+            };
+            auto x = mk(tx, lx);
+            auto y = mk(ty, ly);
+            return std_cmp(x, y, lx, ly);
+        }
         if (name == "G") // empty tuple
         {
             std::tuple<> x, y;
